@@ -44,8 +44,10 @@ def records(ctx):
         ff = fs.fold()
         add('unfold', {'s': enc(ff)}, observe(lambda: ff.unfold()), 'Spectrum.unfold')
     # operator closure table: every binary operator x (spectrum|scalar) x reflected x in-place x folded flags
-    ops = {'add': operator.add, 'sub': operator.sub, 'mul': operator.mul, 'div': operator.truediv}
-    iops = {'add': operator.iadd, 'sub': operator.isub, 'mul': operator.imul, 'div': operator.itruediv}
+    ops = {'add': operator.add, 'sub': operator.sub, 'mul': operator.mul, 'div': operator.truediv,
+           'floordiv': operator.floordiv, 'pow': operator.pow}
+    iops = {'add': operator.iadd, 'sub': operator.isub, 'mul': operator.imul, 'div': operator.itruediv,
+            'floordiv': operator.ifloordiv, 'pow': operator.ipow}
     reps = 2 if ctx.quick else 12
     for rep in range(reps):
         for opn in ops:
@@ -59,6 +61,8 @@ def records(ctx):
                         a.data[a.data == 0] = 1.5
                         if fb is None:
                             c = rng.choice([2.0, 0.5, rng.uniform(0.1, 9)])
+                            if opn == 'pow':
+                                c = float(rng.choice([2, 3]))       # integer exponents: exact in the specification
                             inp = {'a': enc(a), 'c': common.rat(c), 'op': opn, 'refl': mode == 'refl'}
                             b = c
                         else:
@@ -72,13 +76,14 @@ def records(ctx):
                                 out = observe(lambda: ops[opn](b, a))
                             else:
                                 # b op a evaluated by a's reflected method
-                                out = observe(lambda: getattr(a, '__r%s__' % {'add': 'add', 'sub': 'sub', 'mul': 'mul', 'div': 'truediv'}[opn])(b))
+                                out = observe(lambda: getattr(a, '__r%s__' % {'add': 'add', 'sub': 'sub', 'mul': 'mul', 'div': 'truediv', 'floordiv': 'floordiv', 'pow': 'pow'}[opn])(b))
                         else:
                             def f():
                                 x = a.copy()
                                 x = iops[opn](x, b)
                                 return x
                             out = observe(f)
+                        inp['values'] = not (opn == 'floordiv' or (opn == 'pow' and (fb is not None or mode == 'refl')))
                         recs.append({'id': 'arith-%d' % next(nid), 'op': 'arith', 'in': inp, 'out': out,
                                      'site': 'Spectrum.__%s%s__' % ({'plain': '', 'refl': 'r', 'inplace': 'i'}[mode], opn)})
     # unary operators, slicing and likelihood keep the folding status, mask and labels
